@@ -42,7 +42,8 @@ def tie_b_fe25(ctx):
 
 def configs(tier):
     if tier == "quick":
-        return [("native", "", "plain"), ("native", "avx512f,avx2,avx1", "plain"), ("noti", "", "plain")]
+        return [("native", "", "plain"), ("native", "avx512f,avx2,avx1", "plain"), ("noti", "", "plain"),
+                ("native", "", "plain", {"HX_FILL": "255"})]      # output buffers start all-ones instead of stack leftovers
     return [(v, m, "plain") for v in vcore.VARIANTS for m in ("", "avx512f,avx2,avx1", vcore.ALL_OFF)]
 
 
